@@ -4,7 +4,9 @@ R1: Sender.tla (Run / innerRun / cleanup of the socket sender, label by label) c
 R2: SenderSched.tla and BackendSched.tla fault schedules (+ Core schedules).
 S2: harness c16: the real sender.Sender over a scripted ConnFactory, and 12 real backend variants (graphite, statsdaemon tcp/udp,
     datadog, influxdb, newrelic x2, otlp x2, cloudwatch, stdout, null) over in-memory transports, in synctest bubbles.
-R3: CompletionTrace.tla."""
+R3: CompletionTrace.tla.
+CompletionProp also holds the caller: every SendMetricsAsync call returns (ret events; FlusherNotBlocked), also when the request is cancelled
+    while a socket sender's queue is full."""
 import json
 import os
 import vlib
